@@ -182,3 +182,45 @@ def reach(t: str) -> bool:
     """
     w = _U(PRE + t + "/**" + SUF)
     return w is None or len(w) < 2
+
+
+def unfold_filter(t: str) -> bool:
+    """
+    Appending the filter KEY=VAL (VAL may be a ',' list or an alias) to the search PRE+t+SUF: every unfolded result is typed,
+    carries no unapplied query, has its field KEY among the filter's values, and the result set equals the unfiltered
+    results re-typed with KEY overlaid by each value (those that fit).
+    pre: len(t) <= N and _tok(t)
+    post: _
+    """
+    base = PRE + t + SUF
+    vals = []
+    for v in VAL.split(","):
+        for m in (conf.extension_alias.get(v, [v]) if KEY in [x for x in conf.leaf_keys.values() if x] else [v]):
+            if m not in vals:
+                vals.append(m)
+    try:
+        filtered = unfold_search(base + "?" + KEY + "=" + VAL)
+        plain = unfold_search(base)
+    except SpilException:
+        return True
+    got = []
+    for r in filtered:
+        if not r:
+            return fail("untyped-result")
+        if "?" in r.string:
+            return fail("unapplied-query-left-in-result")
+        if r.get(KEY) not in vals:
+            return fail("result-field-is-not-a-filter-value")
+        got.append(r.uri)
+    want = []
+    for r0 in plain:
+        for v in vals:
+            r = Sid(r0.uri + "?" + KEY + "=" + v)
+            if r and "?" not in r.string and r.uri not in want:
+                # narrowing of the re-typed search, as unfold does
+                nq = conf.basetyped_search_narrowing.get(r.basetype, "")
+                if nq:
+                    r = r.get_with(query=nq)
+                if r and "?" not in r.string and r.uri not in want:
+                    want.append(r.uri)
+    return _same(got, want) or fail("filtered-unfold-is-not-the-overlaid-unfiltered-unfold")
